@@ -311,6 +311,10 @@ func (c *Ctx) c08Judge(pairs [][2]string) []*c08Result {
 		r := &c08Result{}
 		res[i] = r
 		parts := strings.SplitN(o, " # ", 4)
+		if strings.HasPrefix(o, "LINKS-CHANGED-BY-RULES ") {
+			d, _ := impl.UnhexW(strings.TrimPrefix(o, "LINKS-CHANGED-BY-RULES "))
+			c.Report("spec", "link-changed-by-a-rule", fmt.Sprintf("document %q: the links on the document after validation differ from the ones the walker wrote: %s", clip(pairs[i][1], 300), string(d)), map[string]any{"op": "c08", "schema": pairs[i][0], "document": pairs[i][1]})
+		}
 		if len(parts) != 4 {
 			r.skipped = o
 			if strings.HasPrefix(o, "CRASH") {
@@ -860,6 +864,9 @@ var c08SeedDocs = []string{
 // field, item of an input field, and variable default.
 func init() {
 	lits := append([]string{gen.MaxFiniteDoubleInt, "-" + gen.MaxFiniteDoubleInt}, gen.BeyondDoubleInts...)
+	// … and float literals at and beyond the range, with both signs and in several spellings
+	lits = append(lits, "1.7976931348623157e308", "-1.7976931348623157e308", "1.7976931348623159e308", "-1.7976931348623159e308",
+		"1e309", "-1e309", "-1.8e308", "-2.0E400", "1E+309", "-1E+309", "1e-400", "-1e-400", "0.0e999", "-0.0", "-0")
 	for _, l := range lits {
 		c08SeedDocs = append(c08SeedDocs,
 			`{ g(fl: `+l+`) }`, `{ g(fls: [1, `+l+`]) }`, `{ g(fi: {fl: `+l+`}) }`, `{ g(fi: {fls: [`+l+`, 2.5]}) }`,
@@ -1119,7 +1126,7 @@ func init() {
 	}
 	Checks["C09"] = func(c *Ctx) {
 		c.SigFilter = func(sig string) bool {
-			return isLinkSig(sig) || strings.HasPrefix(sig, "depends-on-history") || sig == "validate-go-crash" || sig == "spec-op-reply" || strings.HasPrefix(sig, "rule-never") || strings.HasPrefix(sig, "predicate-never")
+			return isLinkSig(sig) || sig == "link-changed-by-a-rule" || strings.HasPrefix(sig, "depends-on-history") || sig == "validate-go-crash" || sig == "spec-op-reply" || strings.HasPrefix(sig, "rule-never") || strings.HasPrefix(sig, "predicate-never")
 		}
 		run := newC08Run(c)
 		run.sweep()
